@@ -11,6 +11,10 @@ use std::time::Instant;
 
 pub const DEFAULT_SEED: u64 = 20260927;
 
+/// Directory in which every worker journals the index of the run it is about to execute, so that
+/// an ABORT of the process (stack overflow, allocation failure: not catchable) can be attributed.
+pub static JOURNAL_DIR: std::sync::OnceLock<String> = std::sync::OnceLock::new();
+
 pub trait Property: Sync + Send {
     fn id(&self) -> &'static str;
     fn level(&self) -> &'static str {
@@ -243,8 +247,12 @@ pub fn run_batch(
         max_events: 0,
     });
     std::thread::scope(|sc| {
-        for _ in 0..workers.max(1) {
-            sc.spawn(|| {
+        for wk in 0..workers.max(1) {
+            let next = &next;
+            let stop_after = &stop_after;
+            let shared = &shared;
+            sc.spawn(move || {
+                let journal = JOURNAL_DIR.get().map(|d| format!("{}/worker-{}", d, wk));
                 let mut local_stats = Stats::default();
                 let mut local_digests: Vec<u64> = Vec::new();
                 let mut local_states: BTreeSet<u64> = BTreeSet::new();
@@ -260,6 +268,9 @@ pub fn run_batch(
                         break;
                     }
                     let (seed, os_seed) = run_seed(prop, base_seed, i);
+                    if let Some(j) = &journal {
+                        let _ = std::fs::write(j, format!("{}\n", i));
+                    }
                     let out = execute(prop, Choices::generate(seed), os_seed, thorough, false);
                     local_eval += 1;
                     local_max_events = local_max_events.max(out.stats.events);
@@ -486,6 +497,8 @@ pub fn write_replay(
 }
 
 pub struct ReplayFile {
+    /// Some(seed): generate mode from the run seed (used for runs that abort the process)
+    pub gen_seed: Option<u64>,
     pub property: String,
     pub thorough: bool,
     pub os_seed: u64,
@@ -502,10 +515,11 @@ pub fn read_replay(path: &str) -> Result<ReplayFile, String> {
         return Err("not a starsim replay file".into());
     }
     Ok(ReplayFile {
+        gen_seed: if v["choices"].is_null() { v["seed"].as_str().and_then(|s| s.parse().ok()) } else { None },
         property: v["property"].as_str().unwrap_or("").to_string(),
         thorough: v["tier"] == "thorough",
         os_seed: v["os_seed"].as_str().unwrap_or("0").parse().map_err(|_| "os_seed")?,
-        choices: v["choices"].as_array().ok_or("choices")?.iter().map(|x| x.as_u64().unwrap_or(0)).collect(),
+        choices: v["choices"].as_array().map(|a| a.iter().map(|x| x.as_u64().unwrap_or(0)).collect()).unwrap_or_default(),
         invariant: v["violation"]["invariant"].as_str().unwrap_or("").to_string(),
         signature: v["violation"]["signature"].as_str().unwrap_or("").to_string(),
         digest: v["digest"].as_str().unwrap_or("").to_string(),
